@@ -79,6 +79,8 @@ def gen_cases(rng, n, quick):
             base['canon'] = rng.choice([True, False])
         if kind == 'full':
             base['form'] = rng.choice([None, 'A', 'B', 'C'])
+        if int(np.prod([mc.site_dim(k) for k, _ in base['sites']['kinds']])) > (128 if quick else 512):
+            continue   # dense operators are D x D
         other = dict(kind='full', seed=rng.getrandbits(31), complex=base['complex'], sites=base['sites'],
                      form=rng.choice([None, 'B']), normalize=rng.random() < 0.5, density=1.0)
         steps = [rng.choice(STEPS) for _ in range(rng.randint(1, 4))]
